@@ -9,7 +9,7 @@ from .core import Violation, Reject, crash
 
 PID = "C04"
 LEVEL = "exploration"
-RULE = ("C03 systems in which a prefix of the residue stream is supplied as atom coordinates (-c) or residue "
+RULE = ("C03 systems (one in five with residue names longer than a .gro field, alike in the first five characters) in which a prefix of the residue stream is supplied as atom coordinates (-c) or residue "
         "centres (-mc), with -res names (absent from the input structure), -ign molecule types (fully supplied, "
         "at every position of [molecules]) and a drawn pattern of failed placement steps injected into "
         "RandomWalk.update_positions; compared: output .gro vs input .gro (5e-4 nm), captured atom positions "
